@@ -13,9 +13,9 @@
  * Byte strings in scripts: '+'-joined components
  *   -            empty
  *   <hex>        literal bytes
- *   g<seed>x<n>  n bytes of the xorshift stream for seed
- *   c<hh>x<n>    byte hh repeated n times
- *   t<a>,<b>,... token bag: each token two bytes big endian
+ *   G<seed>x<n>  n bytes of the xorshift stream for seed
+ *   C<hh>x<n>    byte hh repeated n times
+ *   T<a>,<b>,... token bag: each token two bytes big endian
  * Byte strings in the log: keys always hex; values hex when <= 96 bytes,
  * otherwise {"n":len,"h":"fnv64"}.
  */
@@ -141,16 +141,16 @@ static struct bytes parse_bytes(const char *tok) {
 		size_t L = e ? (size_t)(e - s) : strlen(s);
 		if (L == 1 && s[0] == '-') {
 			/* empty */
-		} else if (s[0] == 'g' || s[0] == 'c') {
+		} else if (s[0] == 'G' || s[0] == 'C') {
 			char *q;
-			unsigned long long a = strtoull(s + 1, &q, s[0] == 'c' ? 16 : 10);
+			unsigned long long a = strtoull(s + 1, &q, s[0] == 'C' ? 16 : 10);
 			assert(*q == 'x');
 			size_t n = strtoull(q + 1, NULL, 10);
 			if (b.n + n + 1 > cap) { cap = (b.n + n + 1) * 2; b.p = realloc(b.p, cap); }
-			if (s[0] == 'g') xs_fill(b.p + b.n, n, a);
+			if (s[0] == 'G') xs_fill(b.p + b.n, n, a);
 			else memset(b.p + b.n, (int)a, n);
 			b.n += n;
-		} else if (s[0] == 't') {
+		} else if (s[0] == 'T') {
 			const char *q = s + 1;
 			while (q < s + L) {
 				char *r;
@@ -564,8 +564,11 @@ static void run_line(char *line) {
 			writers[w] = mtbl_writer_init(ARG(2), o);
 		}
 		mtbl_writer_options_destroy(&o);
-		sb_printf(&s, "{\"e\":\"WInit\",\"w\":%d,\"path\":\"%s\",\"pool\":%ld,\"fd\":%s,\"prefix\":%ld,\"ok\":%s}", w, ARG(2), IARG(7),
-			  (plen > 0 || (nt > 9 && !strcmp(ARG(9), "fd"))) ? "true" : "false", plen, writers[w] ? "true" : "false");
+		sb_printf(&s, "{\"e\":\"WInit\",\"w\":%d,\"path\":\"%s\",\"pool\":%ld,\"fd\":%s,\"prefix\":%ld,\"comp\":%d,\"level\":\"%s\",\"bs\":%ld,\"ri\":%ld,\"ok\":%s}",
+			  w, ARG(2), IARG(7), (plen > 0 || (nt > 9 && !strcmp(ARG(9), "fd"))) ? "true" : "false", plen,
+			  strcmp(ARG(3), "default") ? (int)comp_of(ARG(3)) : 2, ARG(4),
+			  strcmp(ARG(5), "default") ? IARG(5) : 8192L, strcmp(ARG(6), "default") ? IARG(6) : 16L,
+			  writers[w] ? "true" : "false");
 	} else if (!strcmp(op, "w_add")) {
 		int w = IARG(1);
 		struct bytes k = parse_bytes(ARG(2)), v = parse_bytes(ARG(3));
@@ -846,8 +849,19 @@ static void run_line(char *line) {
 		ssize_t wr = b.n ? write(fd, b.p, b.n) : 0;
 		assert(wr == (ssize_t)b.n);
 		close(fd);
-		sb_printf(&s, "{\"e\":\"MkFile\",\"path\":\"%s\",\"n\":%zu}", ARG(1), b.n);
+		sb_printf(&s, "{\"e\":\"MkFile\",\"path\":\"%s\",\"n\":%zu,\"h\":\"%016llx\"}", ARG(1), b.n, (unsigned long long)fnv64(b.p, b.n));
 		free(b.p);
+	} else if (!strcmp(op, "hash")) {
+		FILE *fp = fopen(ARG(1), "rb");
+		uint64_t h = 1469598103934665603ULL; long n = 0; int c;
+		if (fp) { while ((c = fgetc(fp)) != EOF) { h ^= (uint8_t)c; h *= 1099511628211ULL; n++; } fclose(fp); }
+		sb_printf(&s, "{\"e\":\"FileHash\",\"path\":\"%s\",\"n\":%ld,\"h\":\"%016llx\",\"exists\":%s}", ARG(1), n, (unsigned long long)h, fp ? "true" : "false");
+	} else if (!strcmp(op, "symlink")) {
+		int r = symlink(ARG(1), ARG(2));
+		sb_printf(&s, "{\"e\":\"Symlink\",\"target\":\"%s\",\"path\":\"%s\",\"ok\":%s}", ARG(1), ARG(2), r == 0 ? "true" : "false");
+	} else if (!strcmp(op, "mkdir")) {
+		int r = mkdir(ARG(1), 0755);
+		sb_printf(&s, "{\"e\":\"Mkdir\",\"path\":\"%s\",\"ok\":%s}", ARG(1), r == 0 ? "true" : "false");
 	} else if (!strcmp(op, "rm")) {
 		int r = unlink(ARG(1));
 		sb_printf(&s, "{\"e\":\"Rm\",\"path\":\"%s\",\"ok\":%s}", ARG(1), r == 0 ? "true" : "false");
